@@ -34,3 +34,6 @@ func vh_C02_schemas() { vC02Run(vWorldSchemas(), true) }
 func vh_C02_chain_params()    { vC02Run(vWorldChains(0), vParam("chain_orders", 1) == 1) }
 func vh_C02_chain_responses() { vC02Run(vWorldChains(1), vParam("chain_orders", 1) == 1) }
 func vh_C02_chain_pathitems() { vC02Run(vWorldChains(2), vParam("chain_orders", 1) == 1) }
+
+func vh_C02_ports()     { vC02Run(vWorldPorts(), true) }
+func vh_C02_casetwins() { vC02Run(vWorldCaseTwins(), true) }
